@@ -309,6 +309,23 @@ def opMat (ws : List String) : String :=
         "ok kept=" ++ hexOrDash kept.flatten ++ " rows=" ++ (if ok then "rowmajor" else "BROKEN")
       | _ => "bad-op"
 
+/-! ## qsort comparators: sign of the three-way comparison (the model's `VOrd.lt` both ways) -/
+def cmp3 {α : Type} [VOrd α] (a b : α) : Int := if VOrd.lt a b then -1 else if VOrd.lt b a then 1 else 0
+def opCmp (ws : List String) : String :=
+  let op := (arg? ws "op").getD ""
+  let ua := ((arg? ws "a").bind hexNat?).getD 0
+  let ub := ((arg? ws "b").bind hexNat?).getD 0
+  let T := op.toList.headD ' '
+  let inc := (op.drop 1).toString == "Increasing"
+  let sgn (x : Int) : String := s!"ok {if inc then x else -x}"
+  let toI (k : Nat) (u : Nat) : Int := if u < 2 ^ (8 * k - 1) then (u : Int) else (u : Int) - (2 ^ (8 * k) : Nat)
+  match T with
+  | 'D' => sgn (cmp3 (Float.ofBits (UInt64.ofNat ua)) (Float.ofBits (UInt64.ofNat ub)))
+  | 'F' => sgn (cmp3 (Float32.ofBits (UInt32.ofNat ua)) (Float32.ofBits (UInt32.ofNat ub)))
+  | 'I' => sgn (cmp3 (toI 4 (ua % 2 ^ 32)) (toI 4 (ub % 2 ^ 32)))
+  | 'L' => sgn (cmp3 (toI 8 ua) (toI 8 ub))
+  | _ => "bad-op"
+
 def step (s : Unit) (line : String) : Unit × String :=
   let ws := words line
   match ws with
@@ -320,6 +337,7 @@ def step (s : Unit) (line : String) : Unit × String :=
   | "expf" :: _ => (s, opLogExp false ws)
   | "vec" :: _ => (s, opVec ws)
   | "mat" :: _ => (s, opMat ws)
+  | "cmp" :: _ => (s, opCmp ws)
   | _ => (s, "bad-op")
 
 def main : IO Unit := runDriver () step
